@@ -78,7 +78,6 @@ M.update({
 })
 
 M.update({
-    "vec_remove_reads_twice": ("src/storage/storages.rs", "        unsafe { ptr::read(component_ref) }\n    }\n}\n\nimpl<T> SharedGetMutStorage<T> for VecStorage<T> {", "        let first = unsafe { ptr::read(component_ref) };\n        if id % 7 == 3 {\n            core::mem::forget(first);\n            return unsafe { ptr::read(component_ref) };\n        }\n        first\n    }\n}\n\nimpl<T> SharedGetMutStorage<T> for VecStorage<T> {", "C08"),
 })
 
 M.update({
@@ -86,7 +85,7 @@ M.update({
 })
 
 M.update({
-    "revert_fix_c17_failing_batch_recycles_prefix": ("src/world/entity.rs", "                self.cache.extend(delete[..index].iter().map(|e| e.0));\n                return Err((self.del_err(entity), index));", "                return Err((self.del_err(entity), index));", "C17,C01"),
+    "revert_fix_c17_failing_batch_recycles_prefix": ("src/world/entity.rs", "                self.cache.extend(delete[..index].iter().map(|e| e.0));\n                return Err((self.del_err(entity), index));", "                return Err((self.del_err(entity), index));", "C17"),
     "revert_fix_c12_inserted_after_insert": ("src/storage/flagged.rs", "        // SAFETY: Requirements passed to caller.\n        unsafe { self.storage.insert(id, comp) };\n        // NOTE: The event is written only once the insertion succeeded.", "        if self.emit_event() {\n            self.channel\n                .get_mut()\n                .single_write(ComponentEvent::Inserted(id));\n        }\n        // SAFETY: Requirements passed to caller.\n        unsafe { self.storage.insert(id, comp) };\n        return;\n        // NOTE: The event is written only once the insertion succeeded.", "C12"),
 })
 
